@@ -39,6 +39,8 @@ def campaign(c):
         netscen.run_scenario(c, r, 'l4', [['icmp-long', 'udp-long', 'tcp-long'][i % 3]], project)
     for i in range(6 if c.quick else 30):
         netscen.run_scenario(c, c.rng.fork('sweep%d' % i), 'l4', [['icmp-sweep', 'udp-sweep', 'tcp-sweep'][i % 3]], project)
+    for i in range(2 if c.quick else 12):
+        netscen.run_scenario(c, c.rng.fork('optgrid%d' % i), 'l4', ['opt-grid'], project)
     # crafted: UDP sums folding to zero
     for i in range(12 if c.quick else 200):
         r = c.rng.fork('zf%d' % i)
